@@ -87,10 +87,13 @@ class Part:
         self.logics, self.make_logic, self.make_ref = logics, make_logic, make_reference_stat
         self.data, self.squad, self.stat_of_state = data, squad, stat_of_state
         self.reqs: list[dict] = []
+        self.paths: dict[int, tuple] = {}     # request index -> (target, budget, step size) of a whole optimizer run
+        self.diverged: list[tuple] = []       # whole runs whose end state differs from the model's: judged step by step
         self.expect: list[tuple] = []
         self.evaluations = 0
         self.counts = {"cost_steps": 0, "value_steps": 0, "table_cells": 0, "budget_levels": 0, "eval_states": 0,
-                       "raising_states": 0, "optimize_runs": 0, "optimize_tie_divergences": 0}
+                       "raising_states": 0, "optimize_runs": 0, "optimize_tie_divergences": 0, "optimize_tie_steps": 0,
+                       "optimize_runs_judged_step_by_step": 0}
         self.disagreements = 0
         self.per_point: dict[str, int] = {}
         self.samples: list[dict] = []
@@ -397,6 +400,7 @@ class Part:
                           error=type(e).__name__, **self.desc(lname, logic, refd, armor))
                 continue
             self.counts["optimize_runs"] += 1
+            self.paths[len(self.reqs)] = (t, budget, step)
             self.add({"fn": "tgt_optimize", "kind": kind, "large": large, "default": vec(ref), "armor": str(armor),
                       "logic": self.logic_json(lname, logic), "budget": str(budget), "stepSize": str(step),
                       "init": [0] * t.state_length}, "optimize",
@@ -477,12 +481,79 @@ class Part:
                     if mc == exp["cost"] and math.isclose(mv, exp["value"], rel_tol=1e-6):
                         self.counts["optimize_tie_divergences"] += 1
                     else:
-                        self.disagree("optimize", i, {"state": m["state"], "cost": mc, "value": mv},
-                                      {"state": exp["state"], "cost": exp["cost"], "value": exp["value"]}, exp["case"])
+                        # the greedy loop takes the FIRST strictly best increment: where two increments are equally
+                        # good up to float rounding, exact and float arithmetic may pick different ones and the two
+                        # runs then part for good.  Not a disagreement by itself: the real run is judged step by step
+                        self.diverged.append((i, {"state": m["state"], "cost": mc, "value": mv},
+                                              {"state": exp["state"], "cost": exp["cost"], "value": exp["value"]},
+                                              exp["case"]))
                 elif not close(float(parse_frac(m["value"])), exp["value"]) or float(parse_frac(m["cost"])) != exp["cost"]:
                     self.disagree("optimize: cost / value of the result", i,
                                   {"cost": m["cost"], "value": float(parse_frac(m["value"]))},
                                   {"cost": exp["cost"], "value": exp["value"]}, exp["case"])
+
+    def real_path(self, i: int):
+        """the states the real optimizer goes through and the increment it takes at each (the last one is `()`),
+        from the optimizer's own public methods"""
+        t, budget, step = self.paths[i]
+        opt = StepwizeOptimizer(t, budget, step)
+        cur, states, incs = t.clone(), [], []
+        for _ in range(1200):
+            inc = tuple(opt.get_optimal_increment(cur))
+            states.append(list(cur.state))
+            incs.append(list(inc))
+            if not inc:
+                break
+            cur = cur.get_stepped_target(inc)
+        return states, incs
+
+    def judge_diverged(self, driver):
+        """whole runs whose end state is not the model's: every step of the REAL run is put to the model at the state
+        where it was taken.  The step conforms if the model takes the same increment there, or if the increment the
+        real run took is, in exact arithmetic, as good as the model's best up to float rounding (a tie); the real run
+        must stop exactly where the model has nothing left that is better than a tie with 'no step'."""
+        if not self.diverged:
+            return
+        reqs, metas = [], []
+        for (i, mo, io, case) in self.diverged:
+            states, incs = self.real_path(i)
+            r = {k: v for k, v in self.reqs[i].items() if k not in ("fn", "init")}
+            reqs.append({"fn": "tgt_steps", **r, "states": states, "incs": incs})
+            metas.append((i, mo, io, case, states, incs))
+        res = driver(reqs, timeout=600.0)
+        if res is None:
+            return
+        for out, (i, mo, io, case, states, incs) in zip(res, metas):
+            if "ok" not in out:
+                self.disagree("optimize", i, mo, io, case)
+                continue
+            if states[-1] != io["state"]:
+                self.disagree("optimize: the path of get_optimal_increment does not end at optimize()'s result", i,
+                              {"path_end": states[-1]}, io, case)
+                continue
+            bad = None
+            for s_, inc, j in zip(states, incs, out["ok"]):
+                if "error" in j:
+                    bad = (s_, inc, j)
+                    break
+                best, br = j["best"], float(parse_frac(j["bestReward"]))
+                if best == inc:
+                    continue
+                try:
+                    cr = float(parse_frac(j["chosen"])) if inc else -1.0      # no step: INITIAL_REWARD
+                except (ValueError, TypeError):
+                    bad = (s_, inc, j)           # the model raises on the step the code took
+                    break
+                if not math.isclose(cr, br, rel_tol=1e-9, abs_tol=1e-15):
+                    bad = (s_, inc, {"model_best": best, "model_best_reward": br, "reward_of_the_step_taken": cr})
+                    break
+                self.counts["optimize_tie_steps"] += 1
+            if bad:
+                self.disagree("optimize: a step of the real run", i, {"state": bad[0], "model": bad[2]},
+                              {"state": bad[0], "increment_taken": bad[1], "end": io}, case)
+            else:
+                self.counts["optimize_tie_divergences"] += 1
+                self.counts["optimize_runs_judged_step_by_step"] += 1
 
     # ------------------------------------------------------------------------------------------ evidence
     def coverage(self) -> dict:
